@@ -52,6 +52,12 @@ MUTANTS = {
                                                     "        else:\n            cached_dep = self.coredata.deps[self.for_machine].get(identifier)"),
     'M40-skip-diffs': (WR, "                self.apply_patch(packagename)\n                self.apply_diff_files()\n", "                self.apply_patch(packagename)\n"),
     'M41-forced-optional-provide-not-used': (DF, "if self.forcefallback or self.allow_fallback is True or required or self._get_subproject(subp_name):", "if self.allow_fallback is True or required or self._get_subproject(subp_name):"),
+    'M42-override-slot-from-global-default_library': ('mesonbuild/interpreter/mesonmain.py',
+                                                      "        optkey = OptionKey('default_library', subproject=self.interpreter.subproject)\n",
+                                                      "        optkey = OptionKey('default_library')\n"),
+    'M43-rmtree-helper-stats-dangling-symlinks': ('mesonbuild/utils/universal.py',
+                                                  "        os.chmod(d, os.stat(d).st_mode | stat.S_IWRITE | stat.S_IREAD)\n        for fname in files:\n            fpath = os.path.join(d, fname)\n            if not os.path.islink(fpath) and os.path.isfile(fpath):\n                os.chmod(fpath, os.stat(fpath).st_mode | stat.S_IWRITE | stat.S_IREAD)\n",
+                                                  "        for path in [d, *(os.path.join(d, fname) for fname in files)]:\n            os.chmod(path, os.stat(path).st_mode | stat.S_IWRITE | stat.S_IREAD)\n"),
 }
 
 
